@@ -300,7 +300,7 @@ theorem admitSegs_ok (conv una cwnd now : U32) {n : Nat} (q buf : List Seg) (nxt
       · intro x hx
         rcases List.mem_append.mp hx with hx | hx
         · exact hb x hx
-        · have : x = { s with conv := conv, cmd := BitVec.ofNat 8 IKCP_CMD_PUSH, sn := nxt, resendts := now } := by
+        · have : x = { s with conv := conv, cmd := BitVec.ofNat 8 IKCP_CMD_PUSH, sn := nxt, ts := now, resendts := now } := by
             simpa using hx
           subst this
           exact hq s (List.mem_cons_self ..)
